@@ -89,7 +89,7 @@ def evOK (h : Heap) (bufs : List Slice) (sl : Slice) : Prop :=
 
 structure SpanOK (h : Heap) (bufs : List Slice) (s : RSpan) : Prop where
   ev : ∀ e ∈ s.events.queue, evOK h bufs e.attrs
-  ln : ∀ l ∈ s.links.queue, readable h l.attrs
+  ln : ∀ l ∈ s.links.queue, evOK h bufs l.attrs
 
 structure Inv (w : World) : Prop where
   bufs : ∀ b ∈ w.bufs, b.arr < w.heap.length
@@ -113,30 +113,36 @@ theorem evOK_append (h xs : Heap) (bufs : List Slice) (sl : Slice) (hk : evOK h 
   · exact Or.inl h0
   · exact Or.inr ⟨by simp; omega, h2⟩
 
+theorem evOK_set (h : Heap) (a : Nat) (v : List KV) (bufs : List Slice) (sl : Slice) (hk : evOK h bufs sl) :
+    evOK (h.set a v) bufs sl := by
+  rcases hk with h0 | ⟨h1, h2⟩
+  · exact Or.inl h0
+  · exact Or.inr ⟨by simpa using h1, h2⟩
+
+theorem evOK_mk (h : Heap) (x : List KV) (bufs : List Slice) (nb : Slice) (hnb : nb.arr = h.length) (sl : Slice)
+    (hk : evOK h bufs sl) : evOK (h ++ [x]) (bufs ++ [nb]) sl := by
+  rcases hk with h0 | ⟨h1, h2⟩
+  · exact Or.inl h0
+  · refine Or.inr ⟨by simp; omega, fun b hb => ?_⟩
+    rcases List.mem_append.mp hb with hb | hb
+    · exact h2 b hb
+    · simp only [List.mem_singleton] at hb; subst hb; omega
+
+theorem evOK_readable (h : Heap) (bufs : List Slice) (sl : Slice) (hk : evOK h bufs sl) : readable h sl := by
+  rcases hk with h0 | ⟨h1, _⟩
+  · exact Or.inl h0
+  · exact Or.inr h1
+
 theorem spanOK_append (h xs : Heap) (bufs : List Slice) (s : RSpan) (hk : SpanOK h bufs s) : SpanOK (h ++ xs) bufs s :=
-  ⟨fun e he => evOK_append h xs bufs _ (hk.ev e he), fun l hl => readable_append h xs _ (hk.ln l hl)⟩
+  ⟨fun e he => evOK_append h xs bufs _ (hk.ev e he), fun l hl => evOK_append h xs bufs _ (hk.ln l hl)⟩
 
 theorem spanOK_set (h : Heap) (a : Nat) (v : List KV) (bufs : List Slice) (s : RSpan) (hk : SpanOK h bufs s) :
     SpanOK (h.set a v) bufs s :=
-  ⟨fun e he => by
-      rcases hk.ev e he with h0 | ⟨h1, h2⟩
-      · exact Or.inl h0
-      · exact Or.inr ⟨by simpa using h1, h2⟩,
-   fun l hl => by
-      rcases hk.ln l hl with h0 | h1
-      · exact Or.inl h0
-      · exact Or.inr (by simpa using h1)⟩
+  ⟨fun e he => evOK_set h a v bufs _ (hk.ev e he), fun l hl => evOK_set h a v bufs _ (hk.ln l hl)⟩
 
 theorem spanOK_mk (h : Heap) (x : List KV) (bufs : List Slice) (nb : Slice) (hnb : nb.arr = h.length) (s : RSpan)
     (hk : SpanOK h bufs s) : SpanOK (h ++ [x]) (bufs ++ [nb]) s :=
-  ⟨fun e he => by
-      rcases hk.ev e he with h0 | ⟨h1, h2⟩
-      · exact Or.inl h0
-      · refine Or.inr ⟨by simp; omega, fun b hb => ?_⟩
-        rcases List.mem_append.mp hb with hb | hb
-        · exact h2 b hb
-        · simp only [List.mem_singleton] at hb; subst hb; omega,
-   fun l hl => readable_append h [x] _ (hk.ln l hl)⟩
+  ⟨fun e he => evOK_mk h x bufs nb hnb _ (hk.ev e he), fun l hl => evOK_mk h x bufs nb hnb _ (hk.ln l hl)⟩
 
 theorem capSlice_arr (limit : Int) (s : Slice) : (capSlice limit s).1.len = 0 ∨ (capSlice limit s).1.arr = s.arr := by
   unfold capSlice
@@ -197,17 +203,39 @@ theorem capSlice_readable (h : Heap) (limit : Int) (sl : Slice) (hr : readable h
     · exact Or.inl (by have := capSlice_len_le limit sl; omega)
     · exact Or.inr (by rw [h1]; exact r1)
 
+/-- `slices.Clone`: a fresh array (or nil) holding the values the argument had at the call -/
+theorem cloneLink_ok (h : Heap) (bufs : List Slice) (sl : Slice) (hb : ∀ b ∈ bufs, b.arr < h.length) :
+    (∃ xs, (cloneLink h sl).1 = h ++ xs) ∧ evOK (cloneLink h sl).1 bufs (cloneLink h sl).2 ∧
+    read (cloneLink h sl).1 (cloneLink h sl).2 = read h sl := by
+  unfold cloneLink
+  by_cases h0 : sl.len = 0
+  · simp only [h0, if_true]
+    exact ⟨⟨[], by simp⟩, Or.inl rfl, by simp [read_len0, h0, Slice.nil]⟩
+  · simp only [h0, if_false]
+    refine ⟨⟨_, rfl⟩, Or.inr ⟨by simp, fun b hbm => ?_⟩, ?_⟩
+    · have := hb b hbm; simp only; omega
+    · simp only [read, arrOf]
+      rw [List.getElem?_append_right (Nat.le_refl _)]
+      simp [List.take_take]
+
 theorem addLink_ok (lim : Limits) (h : Heap) (bufs : List Slice) (s : RSpan) (sc : SC) (attrs : Slice)
-    (hr : readable h attrs) (hk : SpanOK h bufs s) : SpanOK h bufs (addLink lim s sc attrs) := by
+    (hb : ∀ b ∈ bufs, b.arr < h.length) (hk : SpanOK h bufs s) :
+    (∃ xs, (addLink cloneLink lim h s sc attrs).1 = h ++ xs) ∧
+    SpanOK (addLink cloneLink lim h s sc attrs).1 bufs (addLink cloneLink lim h s sc attrs).2 := by
   unfold addLink
   split
-  · exact hk
+  · exact ⟨⟨[], by simp⟩, hk⟩
   · split
-    · exact hk
-    · refine ⟨hk.ev, fun l hl => ?_⟩
+    · exact ⟨⟨[], by simp⟩, hk⟩
+    · obtain ⟨⟨xs, hxs⟩, hev, _⟩ := cloneLink_ok h bufs (capSlice lim.perLink attrs).1 hb
+      refine ⟨⟨xs, hxs⟩, ?_⟩
+      simp only
+      have hk' : SpanOK (cloneLink h (capSlice lim.perLink attrs).1).1 bufs s := by
+        rw [hxs]; exact spanOK_append h xs bufs s hk
+      refine ⟨hk'.ev, fun l hl => ?_⟩
       rcases mem_add _ _ _ _ hl with hl | hl
-      · exact hk.ln l hl
-      · subst hl; exact capSlice_readable h _ _ hr
+      · exact hk'.ln l hl
+      · subst hl; exact hev
 
 theorem spanOK_base (h : Heap) (bufs : List Slice) (s : RSpan) (b : C04.St) (hk : SpanOK h bufs s) :
     SpanOK h bufs { s with base := b } := ⟨hk.ev, hk.ln⟩
@@ -223,7 +251,26 @@ theorem inv_setSpan (w : World) (hi : Inv w) (i : Nat) (xs : Heap) (s' : RSpan)
      · subst h1; exact hs,
    fun e he => spanOK_append _ _ _ _ (hi.exported e he)⟩
 
-theorem inv_step (lim : Limits) (w : World) (hi : Inv w) (op : AOp) : Inv (step applyEvent lim w op) := by
+/-- newRecordingSpan's `for l := range config.Links() { s.AddLink(l) }` -/
+theorem startLinks_ok (lim : Limits) (w : World) (hi : Inv w) :
+    ∀ (ls : List (SC × Option Nat)) (p : Heap × RSpan) (xs0 : Heap), p.1 = w.heap ++ xs0 →
+        SpanOK p.1 w.bufs p.2 →
+        (∃ xs, (ls.foldl (fun (hs : Heap × RSpan) l => addLink cloneLink lim hs.1 hs.2 l.1 (optBuf w l.2)) p).1
+            = w.heap ++ xs) ∧
+        SpanOK (ls.foldl (fun (hs : Heap × RSpan) l => addLink cloneLink lim hs.1 hs.2 l.1 (optBuf w l.2)) p).1
+          w.bufs (ls.foldl (fun (hs : Heap × RSpan) l => addLink cloneLink lim hs.1 hs.2 l.1 (optBuf w l.2)) p).2 := by
+  intro ls
+  induction ls with
+  | nil => intro p xs0 e0 k0; exact ⟨⟨xs0, e0⟩, k0⟩
+  | cons l rest ih =>
+    intro p xs0 e0 k0
+    have hb0 : ∀ b ∈ w.bufs, b.arr < p.1.length := by
+      intro b hb; have := hi.bufs b hb; rw [e0]; simp; omega
+    obtain ⟨⟨ys, hys⟩, k1⟩ := addLink_ok lim p.1 w.bufs p.2 l.1 (optBuf w l.2) hb0 k0
+    simp only [List.foldl_cons]
+    exact ih (addLink cloneLink lim p.1 p.2 l.1 (optBuf w l.2)) (xs0 ++ ys) (by rw [hys, e0, List.append_assoc]) k1
+
+theorem inv_step (lim : Limits) (w : World) (hi : Inv w) (op : AOp) : Inv (step cur lim w op) := by
   cases op with
   | mk kvs spare =>
     simp only [step]
@@ -243,22 +290,17 @@ theorem inv_step (lim : Limits) (w : World) (hi : Inv w) (op : AOp) : Inv (step 
                fun e he => spanOK_set _ _ _ _ e.2 (hi.exported e he)⟩
       · exact hi
   | start name attrBufs links =>
-    simp only [step]
-    refine ⟨hi.bufs, fun s hs => ?_, hi.exported⟩
-    rcases List.mem_append.mp hs with hs | hs
-    · exact hi.spans s hs
-    · simp only [List.mem_singleton] at hs
-      subst hs
-      apply spanOK_base
-      have : ∀ (ls : List (SC × Option Nat)) (s0 : RSpan), SpanOK w.heap w.bufs s0 →
-          SpanOK w.heap w.bufs (ls.foldl (fun s l => addLink lim s l.1 (optBuf w l.2)) s0) := by
-        intro ls
-        induction ls with
-        | nil => intro s0 h0; exact h0
-        | cons l rest ih =>
-          intro s0 h0
-          exact ih _ (addLink_ok lim _ _ s0 l.1 _ (optBuf_readable w hi l.2) h0)
-      exact this links _ ⟨by simp, by simp⟩
+    simp only [step, cur_lk]
+    obtain ⟨⟨xs, hxs⟩, hok⟩ := startLinks_ok lim w hi links (w.heap, { base := C04.init name }) [] (by simp) ⟨by simp, by simp⟩
+    refine ⟨fun b hb => ?_, fun s hs => ?_, fun e he => ?_⟩
+    · have := hi.bufs b hb; simp only; rw [hxs]; simp; omega
+    · simp only at hs ⊢
+      rcases List.mem_append.mp hs with hs | hs
+      · rw [hxs]; exact spanOK_append _ _ _ _ (hi.spans s hs)
+      · simp only [List.mem_singleton] at hs
+        subst hs
+        exact spanOK_base _ _ _ _ hok
+    · simp only; rw [hxs]; exact spanOK_append _ _ _ _ (hi.exported e he)
   | setAttrs i b =>
     simp only [step]
     split
@@ -268,7 +310,7 @@ theorem inv_step (lim : Limits) (w : World) (hi : Inv w) (op : AOp) : Inv (step 
         (by simpa using spanOK_base _ _ s _ (hi.spans s (List.mem_of_getElem? hs)))
       simpa using this
   | addEvent i name bufs =>
-    simp only [step]
+    simp only [step, cur_ae]
     split
     · exact hi
     · rename_i s hs
@@ -284,7 +326,7 @@ theorem inv_step (lim : Limits) (w : World) (hi : Inv w) (op : AOp) : Inv (step 
         rw [← hxs] at this
         exact this
   | recordError i err bufs =>
-    simp only [step]
+    simp only [step, cur_ae]
     split
     · exact hi
     · exact hi
@@ -314,14 +356,14 @@ theorem inv_step (lim : Limits) (w : World) (hi : Inv w) (op : AOp) : Inv (step 
         rw [e, ← hxs] at this
         exact this
   | addLink i sc b =>
-    simp only [step]
+    simp only [step, cur_lk]
     split
     · exact hi
     · rename_i s hs
-      have := inv_setSpan w hi i [] (addLink lim s sc (optBuf w b))
-        (by simpa using addLink_ok lim _ _ s sc _ (optBuf_readable w hi b) (hi.spans s (List.mem_of_getElem? hs)))
-      simp only [List.append_nil] at this
-      exact ⟨this.bufs, this.spans, this.exported⟩
+      obtain ⟨⟨xs, hxs⟩, hok⟩ := addLink_ok lim w.heap w.bufs s sc (optBuf w b) hi.bufs (hi.spans s (List.mem_of_getElem? hs))
+      have := inv_setSpan w hi i xs (addLink cloneLink lim w.heap s sc (optBuf w b)).2 (by rw [← hxs]; exact hok)
+      rw [← hxs] at this
+      exact this
   | plain i op =>
     simp only [step]
     split
